@@ -618,7 +618,7 @@ pub fn check(cfg: &CheckCfg) -> i32 {
     for idx in cross_diff.iter().take(3) {
         let mut run = plan(&corpus, &cfg.property, &cfg.tier, root, *idx);
         run.violation_class = "differ:across-os-processes".into();
-        run.observed = json!({"property": cfg.property, "class": run.violation_class, "detail": "the per-run log hash (every output of every build of the run) differs between two OS processes (16 workers unpinned vs 5 workers each pinned to one CPU, runs executed in another order)", "first_seen_in_run": idx, "root_seed": root});
+        run.observed = json!({"property": cfg.property, "class": run.violation_class, "detail": "the per-run log hash (every output of every build of the run) differs between two OS processes (16 workers unpinned vs 5 workers each pinned to one CPU, started in another working directory with another environment, runs executed in another order)", "first_seen_in_run": idx, "root_seed": root});
         let path = replay_path(&cfg.property, &run);
         std::fs::write(&path, serde_json::to_string_pretty(&run).unwrap()).expect("write replay file");
         let v = Violation { property: cfg.property.clone(), class: run.violation_class.clone(), detail: run.observed.clone(), op_index: 0 };
@@ -722,6 +722,7 @@ pub fn check(cfg: &CheckCfg) -> i32 {
             "c10_comparisons": agg.stats.c10_comparisons,
             "c10_variants_built": agg.stats.c10_variants_built,
             "runs_compared_across_os_processes": cross_compared,
+            "second_batch_processes_differ_in": "worker count (5 vs 16), CPU affinity (one CPU each), order of runs (reversed), working directory (/), environment (RUST_BACKTRACE, RUST_LIB_BACKTRACE, HOME, TZ, LANG, LC_ALL, NO_COLOR, COLUMNS, USER)",
             "faults_fired": agg.stats.fired,
             "rare_condition_probes": agg.stats.probes.iter().filter(|(k, _)| !k.starts_with("edit:")).map(|(k, v)| (k.clone(), *v)).collect::<BTreeMap<String, u64>>(),
             "editor_actions_by_kind": agg.stats.probes.iter().filter(|(k, _)| k.starts_with("edit:")).map(|(k, v)| (k[5..].to_string(), *v)).collect::<BTreeMap<String, u64>>(),
